@@ -138,6 +138,8 @@ impl HeapBuffer {
     pub(super) fn as_str(&self) -> &str {
         let len = self.len();
         let ptr = self.ptr.as_ptr();
+        #[cfg(feature = "verif-hooks")]
+        crate::verif_hooks::note(crate::verif_hooks::NOTE_READ_TEXT, ptr);
         // SAFETY: HeapBuffer contains valid `len` bytes of UTF-8 string.
         unsafe { core::str::from_utf8_unchecked(slice::from_raw_parts(ptr, len)) }
     }
